@@ -50,7 +50,7 @@ func ruleC05Moves(cx *Ctx) {
 			continue
 		}
 		a := newAgg(cx, rule, funcName(r.fn), cx.P.Pos(r.fn.Pos()))
-		p := "param:" + pname(r.fn.Params[0])
+		p := "param:" + pname(bparam(r.fn, 0))
 		transfers := 0
 		for _, o := range r.outs {
 			if o.Panic {
